@@ -150,6 +150,16 @@ pub struct CheckpointMetadata {
 #[cfg(feature = "checkpointing")]
 pub const MAX_CHECKPOINT_DECODE_BYTES: usize = 1 << 20;
 
+/// Upper bound on the number of bytes `load_checkpoint` reads from a checkpoint file.
+///
+/// The decoder claims 8 bytes per integer against [`MAX_CHECKPOINT_DECODE_BYTES`] but an encoded
+/// integer may occupy 9, so a record that passes the decode limit is at most that limit plus one
+/// byte per integer field (8 today) long. Bytes after the record were never looked at, so reading
+/// only this much leaves the result of every load unchanged while a huge leftover file no longer
+/// makes the load allocate a buffer of the file's size.
+#[cfg(feature = "checkpointing")]
+pub const MAX_CHECKPOINT_FILE_BYTES: u64 = MAX_CHECKPOINT_DECODE_BYTES as u64 + 64;
+
 /// Manages checkpoint creation, persistence, and recovery.
 #[cfg(feature = "checkpointing")]
 pub struct CheckpointManager {
@@ -292,9 +302,10 @@ impl CheckpointManager {
     ///
     /// Returns an error if the checkpoint file cannot be read or if the checksum verification fails.
     pub fn load_checkpoint(&self, path: &Path) -> Result<CheckpointState> {
-        let mut file = File::open(path).context("Failed to open checkpoint file")?;
+        let file = File::open(path).context("Failed to open checkpoint file")?;
         let mut encoded = Vec::new();
-        file.read_to_end(&mut encoded)
+        file.take(MAX_CHECKPOINT_FILE_BYTES)
+            .read_to_end(&mut encoded)
             .context("Failed to read checkpoint")?;
 
         let (state, _len): (CheckpointState, usize) = decode_from_slice(
